@@ -32,6 +32,39 @@ static void *drv_malloc(size_t n) { return alloc_refused() ? NULL : malloc(n); }
 static void *drv_realloc(void *p, size_t n) { return alloc_refused() ? NULL : realloc(p, n); }
 static void  drv_free(void *p) { free(p); }
 
+/* Leak attribution.  A LeakSanitizer pass costs ~10 ms, so it runs after every LEAK_BATCH cases
+ * (and after the last one).  When a pass finds a leak the driver re-executes itself from the
+ * first case of the batch in "each" mode (a pass after every case) and exits with the
+ * LeakSanitizer exit code at the case that leaks - or at the end of the batch if no single
+ * case reproduces it - so that the runner attributes the leak to a replayable case and resumes
+ * with the next one.  The cases of the batch print their result lines twice (identical). */
+#define LEAK_BATCH 16
+static char **g_argv;
+static long   batch_start, batch_n, each_until = -1;
+
+static void leak_reexec(long last)
+{
+  char a[32], b[32];
+  fflush(stdout);
+  snprintf(a, sizeof(a), "%ld", batch_start);
+  snprintf(b, sizeof(b), "%ld", last);
+  setenv("DSA_LEAK_EACH_UNTIL", b, 1);
+  execl(g_argv[0], g_argv[0], g_argv[1], a, (char *)NULL);
+  _exit(97);
+}
+
+static void leak_checkpoint(long k)
+{
+  if (each_until >= 0) {
+    if (__lsan_do_recoverable_leak_check() || k >= each_until) { fflush(stdout); _exit(97); }
+    return;
+  }
+  if (++batch_n < LEAK_BATCH) return;
+  if (__lsan_do_recoverable_leak_check()) leak_reexec(k);
+  batch_n     = 0;
+  batch_start = k + 1;
+}
+
 static void run_case(long k, char *line)
 {
   char *bar = strchr(line, '|');
@@ -43,9 +76,7 @@ static void run_case(long k, char *line)
   for (i = 0; i < nkinds; i++) {
     if (strcmp(line, kinds[i].kind) == 0) {
       kinds[i].fn(k, bar + 1);
-      /* attribute a leak to the case that caused it (exit code = LSAN_OPTIONS exitcode);
-       * the runner resumes with the next case */
-      if (__lsan_do_recoverable_leak_check()) { fflush(stdout); _exit(97); }
+      leak_checkpoint(k);
       return;
     }
   }
@@ -55,8 +86,12 @@ static void run_case(long k, char *line)
 int main(int argc, char **argv)
 {
   int rc;
+  g_argv = argv;
+  batch_start = argc > 2 ? atol(argv[2]) : 0;
+  if (getenv("DSA_LEAK_EACH_UNTIL")) each_until = atol(getenv("DSA_LEAK_EACH_UNTIL"));
   ares_library_init_mem(ARES_LIB_INIT_ALL, drv_malloc, drv_free, drv_realloc);
   rc = drv_main(argc, argv, run_case);
   ares_library_cleanup();
+  if (each_until < 0 && batch_n > 0 && __lsan_do_recoverable_leak_check()) leak_reexec(batch_start + batch_n - 1);
   return rc;
 }
